@@ -682,6 +682,17 @@ def followup_plans(rng, plan: dict, res: dict, limit: int = 3) -> list:
             continue
         var = json_copy(base)
         edits = [e for e in CONTEXT_EDITS if e[0].rstrip("*") != ctype]
+        if var["kind"] != "figure" and rng.random() < 0.6:
+            # another table of the same width: more rows, other texts (row heights, page breaks differ)
+            lite = {"small_nrow": rng.random() < 0.7, "convert": False}
+            var["dfs"] = [R.gen_frame(rng, lite, len(f["cols"]), "plain") for f in var["dfs"]]
+            for b in var["bodies"]:
+                for k in ("group_by", "page_by", "subline_by", "new_page", "pageby_row"):
+                    b.pop(k, None)
+            if ctype == "body":
+                var["bodies"] = json_copy(base["bodies"])  # the shared component itself must stay equal
+                if any(k in b for b in var["bodies"] for k in ("group_by", "page_by", "subline_by")):
+                    var["dfs"] = json_copy(base["dfs"])
         for tgt, val in rng.sample(edits, rng.choice([1, 2, 3])):
             if tgt == "page":
                 var["page"] = dict(var.get("page") or {}, **val)
@@ -718,6 +729,19 @@ def _ws():
 
 
 def _handle_violation(ws, plan, refs, res, vs, idx, out, max_minimise):
+    """Never lets a problem in minimisation / classification swallow the violation itself."""
+    try:
+        _handle_violation_inner(ws, plan, refs, res, vs, idx, out, max_minimise)
+    except Exception:  # noqa: BLE001
+        import traceback as _tb
+
+        v = dict(vs[0])
+        v.pop("_text", None)
+        out["violations"].append({"v": v, "sig": signature(v), "plan": freeze_aborts(plan, res), "seed_idx": idx,
+                                  "handler_error": _tb.format_exc()[-600:]})
+
+
+def _handle_violation_inner(ws, plan, refs, res, vs, idx, out, max_minimise):
     v = vs[0]
     frozen = freeze_aborts(plan, res)
     if ws["minimised"] < max_minimise:
@@ -738,7 +762,8 @@ def _handle_violation(ws, plan, refs, res, vs, idx, out, max_minimise):
     if ref_text is not None and v["class"] == "output_differs":
         v["class"] = diff_class(v["_text"], ref_text)
     # was it the hash seed rather than the history?  (the reference came from another PYTHONHASHSEED)
-    if ws["refcache"].server is not None and v.get("recipe") is not None and v["op"] == "encode":
+    if (ws["refcache"].server is not None and v.get("recipe") is not None and v["op"] == "encode"
+            and isinstance(v.get("observed"), dict) and "k" in v["observed"]):
         try:
             local = ws["refcache"].get(frozen["recipes"][v["recipe"]], local=True)
             if local["encode"] is not None and R.same_outcome(v["observed"], local["encode"]):
@@ -831,7 +856,7 @@ def summarise(plan, res, refs, idx) -> dict:
         "steps": res["steps"],
         "fault_mode": plan["gen"]["fault_mode"],
         "sample": {"ops": [slim_op(o) for o in plan["ops"]],
-                   "recipes": [R.recipe_traits(r) for r in plan["recipes"]]} if idx < 3 else None,
+                   "recipes": [R.recipe_traits(r) for r in plan["recipes"]]} if (idx < 3 or idx % 1000 == 0) else None,
     }
 
 
